@@ -12,7 +12,7 @@ from . import detsched
 
 
 class MacroReplay(detsched.Strategy):
-    def __init__(self, actions, task_of, boundary, after, max_inner=200, chooser=None, env=None):
+    def __init__(self, actions, task_of, boundary, after, max_inner=200, chooser=None, env=None, skip=None, stop_when_done=False):
         self.actions = list(actions)
         self.task_of = task_of  # action -> task name
         self.boundary = boundary  # (task, seen) -> bool : parked at an action boundary; seen = labels parked at
@@ -20,6 +20,8 @@ class MacroReplay(detsched.Strategy):
         self.after = after  # (k, action, sched) -> None ; may raise ReplayMismatch
         self.chooser = chooser  # (action, n, label) -> index : data choices made while the action runs
         self.env = env  # (action, sched) -> None : executes an environment action (task_of(action) is None)
+        self.skip = skip  # (k, action, sched) -> bool : the action is a stuttering step of the code (decided on the code's state)
+        self.stop_when_done = stop_when_done  # abort the execution as soon as the walk is complete
         self.k = 0
         self.target = None
         self.inner = 0
@@ -64,6 +66,13 @@ class MacroReplay(detsched.Strategy):
                     self.done = True
                     progress = True
                 return progress
+            if self.skip is not None and self.skip(self.k, self.actions[self.k], sched):
+                mm = self.after(self.k, self.actions[self.k], sched)
+                if mm is not None:
+                    self._fail(mm)
+                self.k += 1
+                progress = True
+                continue
             name = self.task_of(self.actions[self.k])
             if name is None:   # environment action: executed by the replayer itself
                 self.env(self.actions[self.k], sched)
@@ -112,6 +121,8 @@ class MacroReplay(detsched.Strategy):
             if self.inner > self.max_inner:
                 raise detsched.Divergence(f"action {self.k}: more than {self.max_inner} inner steps")
             return T
+        if self.stop_when_done and self.done:
+            raise detsched.Divergence("__walk_complete__")
         # walk finished: run everything to completion, library threads first
         rest = [t for t in enabled if t is not sched.main]
         if rest:
